@@ -178,6 +178,14 @@ func C20(c *core.Ctx) {
 				fail("carrier-kept", "secret "+name+" still carries the private x-#value extension")
 			}
 		}
+		for i, cf := range configs {
+			if cf.Kind == "environment" {
+				val, _ := c20Canary("c", i+1)
+				if got := p.Configs[fmt.Sprintf("c%d", i+1)].Content; got != val {
+					fail("engine-content-config", fmt.Sprintf("config c%d: content on the loaded project is %q, expected the variable's value %q", i+1, got, val))
+				}
+			}
+		}
 		q := p
 		for _, o := range ops {
 			switch o {
